@@ -40,7 +40,7 @@ For each k write into {wt}/out/ :
    m<k>.diff      - `git diff` of the change alone (the worktree must be clean again afterwards: `git checkout -- .` between changes);
    m<k>_demo.py   - a standalone script that exits 0 on the unchanged checkout and exits 1 (printing what went wrong) with the change applied;
    m<k>.json      - {{"property": "{p['id']}", "summary": "<what was changed and why it breaks the property>", "needs": "<what is needed for it to manifest>", "files": [...]}}
-Verify each one yourself: demo passes on the clean tree, fails with the patch, test suite passes with the patch. Leave the worktree clean
+Verify each one yourself: demo passes on the clean tree, fails with the patch, test suite passes with the patch. Never use `git stash` (the stash is shared between worktrees of one repository): use `git diff > file` and `git checkout -- .` instead. Leave the worktree clean
 at the end. Reply with a short list of the four summaries.
 """
     open(os.path.join(out, p["id"] + ".prompt"), "w").write(prompt)
